@@ -1,6 +1,7 @@
 use crate::ctx::Ctx;
 
 pub mod c01;
+pub mod c08;
 pub mod c12;
 pub mod c05;
 pub mod c18;
@@ -29,6 +30,7 @@ pub fn run(prop: &str, ctx: &mut Ctx) -> bool {
         "C18" => c18::run(ctx),
         "C05" => c05::run(ctx),
         "C12" => c12::run(ctx),
+        "C08" => c08::run(ctx),
         _ => return false,
     }
     true
